@@ -237,41 +237,26 @@ def run(prog: Program, res: Result, tier: str) -> None:
                                 "FileReader no longer opens the stream table's files in order", construct="FileReader.__init__", key="sinfo:files")
 
     # ---- R6 read loops ---------------------------------------------------------------------------------------------------
-    cr = prog.func(FIO, "FileReader.cread")
-    src = norm(cr.node)
-    checks = [
-        ("count of stored elements = nunits // bitfact", "count = nunits // self.bitsinfo.bitfact" in src),
-        ("each pass reads at most what is still wanted, from the current position", "np.fromfile(self.file_obj, count=count_read, dtype=self.bitsinfo.dtype)" in src
-         and "count_read = min(self.sinfo.entries[self.ifile_cur].datalen, count)" in src),
-        ("the outstanding count shrinks by what was actually read; the loop ends exactly at zero", "count -= len(data_read)" in src and "if count == 0: break" in src),
-        ("otherwise the next file is entered at its header end", "self._seek2hdr(self.ifile_cur + 1)" in src),
-        ("pieces are joined in order and unpacked with the stream's depth and bit order",
-         "data_ar = np.concatenate(data)" in src and "return unpack(data_ar, self.bitsinfo.nbits, bitorder=self.bitsinfo.bitorder)" in src),
-    ]
-    for what, ok in checks:
-        (res.ok if ok else res.bad)("R6", cr, cr.node, what if ok else f"cread no longer satisfies: {what}", construct=what, key=f"cread:{what[:40]}")
-    ci = prog.func(FIO, "FileReader.creadinto")
-    src = norm(ci.node)
-    checks = [
-        ("each pass fills the buffer from where the previous one stopped", "nbytes_read = self.file_obj.readinto(read_buffer_view[nbytes:])" in src and "nbytes += nbytes_read" in src),
-        ("the loop stops when the buffer is full or the stream has ended", "if nbytes == len(read_buffer_view) or self.eos(): break" in src),
-        ("otherwise the next file is entered at its header end", "self._seek2hdr(self.ifile_cur + 1)" in src),
-        ("the number of bytes actually read is returned", src.rstrip().endswith("return nbytes")),
-        ("non-blocking None is reported, not counted", "if nbytes_read is None:" in src and "raise BlockingIOError(msg)" in src),
-    ]
-    for what, ok in checks:
-        (res.ok if ok else res.bad)("R6", ci, ci.node, what if ok else f"creadinto no longer satisfies: {what}", construct=what, key=f"creadinto:{what[:40]}")
-    eo = prog.func(FIO, "FileBase.eos")
-    src = norm(eo.node)
-    ok = "eof = self.file_obj.tell() == os.fstat(self.file_obj.fileno()).st_size" in src and "eol = self.ifile_cur == len(self.files) - 1" in src and "return eof & eol" in src
-    (res.ok if ok else res.bad)("R6", eo, eo.node, "end of stream = at the end of the current file AND it is the last file" if ok else
-                                "eos() is no longer (end of current file) and (last file)", construct="eos", key="eos")
+    from .. import kernelspec
+    for qual, name, what in (
+            ("FileReader.cread", "cread", "counted read: stored elements = nunits // bitfact; each pass reads min(file data, outstanding) from the current "
+             "position, the outstanding count shrinks by what was read and the loop ends exactly at zero, otherwise the next file is entered at its "
+             "header end; pieces are concatenated in order and unpacked with the stream's depth and bit order"),
+            ("FileReader.creadinto", "creadinto", "buffer read: each pass appends at view[nbytes:], the loop stops when the buffer is full or the stream "
+             "has ended, otherwise the next file is entered at its header end; the byte count is returned; a non-blocking None is an error"),
+            ("FileBase.eos", "eos", "end of stream = at the end of the current file AND it is the last file")):
+        fn = prog.func(FIO, qual)
+        verdict, why = kernelspec.compare(fn, name)
+        if verdict == "incomparable":
+            raise AnalysisError(f"{qual} cannot be compared with its reference definition: {why[0]}")
+        (res.ok if verdict == "same" else res.bad)("R6", fn, fn.node, (what if verdict == "same" else f"{qual} differs from its definition: " + ("; ".join(why))[:500]),
+                                                   construct=qual, key=f"{name}:definition")
     res.floor("R1", 8)
     res.floor("R2", 3)
     res.floor("R3", 5)
     res.floor("R4", 5)
     res.floor("R5", 2)
-    res.floor("R6", 11)
+    res.floor("R6", 3)
     res.floor("R7", 6)
 
 
@@ -316,6 +301,9 @@ MUTANTS += [
      "old": "        self.entries.append(finfo)", "new": "        self.entries.insert(0, finfo)"},
 ]
 TWINS = [
+    {"id": "c02-twin-cread-rename", "file": F,
+     "old": "            count_read = min(self.sinfo.entries[self.ifile_cur].datalen, count)\n            data_read = np.fromfile(\n                self.file_obj,\n                count=count_read,\n                dtype=self.bitsinfo.dtype,\n            )\n            count -= len(data_read)\n            data.append(data_read)",
+     "new": "            piece = np.fromfile(\n                self.file_obj,\n                dtype=self.bitsinfo.dtype,\n                count=min(self.sinfo.entries[self.ifile_cur].datalen, count),\n            )\n            count -= len(piece)\n            data.append(piece)"},
     {"id": "c02-twin-offset-temp", "file": F,
      "old": "            file_offset = offset - self.sinfo.cumsum_datalens[fileid - 1]\n            self.file_obj.seek(file_offset, os.SEEK_CUR)",
      "new": "            before = self.sinfo.cumsum_datalens[fileid - 1]\n            self.file_obj.seek(-before + offset, os.SEEK_CUR)"},
